@@ -7,7 +7,7 @@ COQCHK = False
 RULE = ('seeded client histories: connect() with each transport list, then a server played by the generator at every step (valid OPEN, empty / garbage / non-OPEN / malformed-OPEN replies, error status, '
         'connection failures, WebSocket accept / refuse / frames / garbage / close, CLOSE and PING and MESSAGE packets incl. handlers that raise, send or disconnect), application send / disconnect / wait / '
         'reconnect calls, clock advances around every timeout; one history in twelve has a connect handler that calls disconnect(); finished by a long silence, wait() and a fresh connect(). '
-        'Run on Client and AsyncClient and through the model. distinct = distinct (client, stimuli)')
+        'half of the histories are generated adaptively (the next stimulus follows what the client is waiting for: valid handshakes, long conversations, bursts of up to 35 sends), preceded by fixed histories (backlogs of 15..40 sends, every malformed OPEN, reconnect while the previous POST is outstanding); one in twelve has a disconnect handler that calls disconnect(). Run on Client and AsyncClient and through the model. distinct = distinct (client, stimuli)')
 NAMES = ('c08',)
 
 
@@ -18,39 +18,100 @@ def finale(r):
     r.do(('call', 'connect', ['polling']))
 
 
+OPEN = ('open', True, False, 16, 16)
+OPENU = ('open', True, True, 16, 16)
+
+
+def fixed_histories():
+    out = []
+    sends = lambda a, n: [('call', 'send', a + i, i % 5 == 4) for i in range(n)]
+    # a backlog of 15..40 sends behind an outstanding POST
+    for n in (15, 16, 17, 20, 33, 40):
+        out.append([('call', 'connect', ['polling']), ('reply', 'GET', ('ok', [OPEN])), ('call', 'send', 1, False)] + sends(2, n) +
+                   [('reply', 'POST', ('ok', []))] * 4 + [('adv', 1)])
+        # ... and queued while the upgrade is still being attempted (the write loop has not started)
+        out.append([('call', 'connect', ['polling', 'websocket']), ('reply', 'GET', ('ok', [OPENU]))] + sends(1, n) +
+                   [('wsanswer', False)] + [('reply', 'POST', ('ok', []))] * 4)
+        out.append([('call', 'connect', ['polling', 'websocket']), ('reply', 'GET', ('ok', [OPENU]))] + sends(1, n) +
+                   [('wsanswer', True), ('wsframe', ('pk', ('pongprobe',))), ('adv', 1)])
+    # every malformed OPEN, then a WebSocket connection on the same object
+    for k in range(4):
+        out.append([('call', 'connect', ['polling']), ('reply', 'GET', ('ok', [('open', False, False, 16, 16 + k)])),
+                    ('call', 'connect', ['websocket']), ('wsanswer', True), ('wsframe', ('pk', OPEN)), ('call', 'send', 1, False), ('adv', 1)])
+        out.append([('call', 'connect', ['websocket']), ('wsanswer', True), ('wsframe', ('pk', ('open', False, False, 16, 16 + k))),
+                    ('call', 'connect', ['polling']), ('reply', 'GET', ('ok', [OPEN])), ('call', 'send', 1, False), ('reply', 'POST', ('ok', []))])
+    # the server closes while a POST is outstanding, the application reconnects, then the old POST ends (ok / fails / times out)
+    for tail in ([('reply', 'POST', ('ok', []))], [('reply', 'POST', ('fail',))], [('adv', 41)]):
+        out.append([('call', 'connect', ['polling']), ('reply', 'GET', ('ok', [OPEN])), ('call', 'send', 1, False), ('reply', 'GET', ('ok', [('close',)])),
+                    ('call', 'connect', ['polling']), ('reply', 'GET', ('ok', [OPEN]))] + tail + [('adv', 1), ('call', 'send', 2, False), ('call', 'wait')])
+    return out
+
+
 def run_suite(ctx, pid, which, n_quick, n_thorough):
     res = vlib.Result()
     res.rule = RULE
     rng = ctx.rng
     runners = []
-    seen = set()
-    for h in range(ctx.n(n_quick, n_thorough)):
-        ops = chist.gen_history(rng, rng.choice([6, 12, 20, 30]))
-        cd = rng.random() < 0.08
-        for kind in ('threaded', 'asyncio'):
-            r = chist.CRunner(kind, connect_disconnects=cd, disc_raises=(h % 5 == 0))
+    fixed = fixed_histories()
+    n = ctx.n(n_quick, n_thorough)
+
+    def judge(r, kind, cd, dd, tag):
+        try:
+            finale(r)
+            if 'c08' in which:
+                coracles.c08(res, r, True)
+            if 'c09' in which:
+                coracles.c09(res, r)
+                coracles.c09_silence(res, r)
+        except Exception as e:
+            res.errors.append('history crashed the harness on %s: %s %s' % (kind, type(e).__name__, str(e)[:300]))
+        finally:
+            r.close()
+        runners.append(r)
+        res.count((kind, cd, dd, tuple(map(repr, r.log))), len(r.log) > 4, '%s:%s:len%d' % (kind, tag, 10 * (len(r.log) // 10)))
+        for op in r.log:
+            res.dist['op:' + (op[0] if op[0] != 'call' else 'call-' + op[1])] += 1
+
+    for h in range(n + len(fixed)):
+        cd = h >= len(fixed) and rng.random() < 0.08
+        dd = h >= len(fixed) and rng.random() < 0.08
+        kw = dict(connect_disconnects=cd, disc_raises=(h % 5 == 0), disconnect_disconnects=dd)
+        if h < len(fixed):
+            ops, tag = fixed[h], 'fixed'
+        elif h % 2:
+            ops, tag = chist.gen_history(rng, rng.choice([6, 12, 20, 30])), 'random'
+        else:
+            # generated while it runs on the threaded client, replayed on the other one
+            r = chist.CRunner('threaded', **kw)
+            tag = 'adaptive'
+            try:
+                ops = chist.gen_adaptive(rng, r, rng.choice([10, 20, 35]))
+            except Exception as e:
+                res.errors.append('history crashed the harness on threaded: %s %s' % (type(e).__name__, str(e)[:300]))
+                r.close()
+                continue
+            judge(r, 'threaded', cd, dd, tag)
+            r = chist.CRunner('asyncio', **kw)
             try:
                 for op in ops:
                     r.do(op)
-                finale(r)
-                if 'c08' in which:
-                    coracles.c08(res, r, True)
-                if 'c09' in which:
-                    coracles.c09(res, r)
-                    coracles.c09_silence(res, r)
+            except Exception as e:
+                res.errors.append('history crashed the harness on asyncio: %s %s' % (type(e).__name__, str(e)[:300]))
+            judge(r, 'asyncio', cd, dd, tag)
+            continue
+        for kind in ('threaded', 'asyncio'):
+            r = chist.CRunner(kind, **kw)
+            try:
+                for op in ops:
+                    r.do(op)
             except Exception as e:
                 res.errors.append('history crashed the harness on %s: %s %s' % (kind, type(e).__name__, str(e)[:300]))
-            finally:
-                r.close()
-            runners.append(r)
-            res.count((kind, cd, tuple(map(repr, r.log))), len(r.log) > 4, '%s:len%d' % (kind, 10 * (len(r.log) // 10)))
-            for op in r.log:
-                res.dist['op:' + (op[0] if op[0] != 'call' else 'call-' + op[1])] += 1
+            judge(r, kind, cd, dd, tag)
     bad, errs = chist.check(runners)
     res.errors += errs
     for b in bad[:20]:
         r = runners[b]
-        res.mismatches.append(dict(suite='client-history', case=dict(client=r.kind, connect_disconnects=r.connect_disconnects, ops=r.log), impl=r.outs,
+        res.mismatches.append(dict(suite='client-history', case=dict(client=r.kind, connect_disconnects=r.connect_disconnects, disconnect_disconnects=r.disconnect_disconnects, ops=r.log), impl=r.outs,
                                    model=chist.explain(r) if len(res.mismatches) < 2 else '(not shown)'))
     res.traces = len(runners)
     return res
@@ -66,7 +127,7 @@ def search(ctx, res):
 
 def replay(payload):
     c = payload['case']
-    r = chist.CRunner(c['client'], connect_disconnects=c.get('connect_disconnects', False))
+    r = chist.CRunner(c['client'], connect_disconnects=c.get('connect_disconnects', False), disconnect_disconnects=c.get('disconnect_disconnects', False))
     res = vlib.Result()
     for op in c['ops']:
         r.do(fix(op))
